@@ -189,7 +189,9 @@ def r14b(ctx, classes):
                       e.data[1] == '_zero_point']
                 for e in zs:
                     z = e.data[2]
-                    requant = mentions(z, lambda x: x == ('attr', SELF, 'shift'))
+                    requant = any(a in (('attr', SELF, 'skip_requant'),
+                                        ('attr', SELF, 'last_layer')) and v is False
+                                  for a, v in guards_of(p, e))
                     if not requant:
                         continue
                     sw = [x for x in subterms(z) if is_call(x, 'torch.sum')]
